@@ -402,6 +402,12 @@ func ruleDemuxRouting(c *Ctx, r1, r2 string) {
 
 func ruleDemuxWriter(c *Ctx, rule string) {
 	p := c.p
+	// Cancel releases whatever connection is registered under a key *now*: it belongs to the owner of the demux. A
+	// per-connection goroutine that calls it on its way out can close and forget the successor of its own connection.
+	for _, cs := range p.Callers(p.MustFn("goat.Demux.Cancel")) {
+		c.check(rule, "Cancel←"+p.cname(cs.caller), false, "Demux.Cancel (release by key) is called from inside the library: a late caller hits the connection that now owns the key", p.ipos(cs.instr))
+	}
+	c.trivial(rule, "Cancel:callers-inside-the-library", true, "who-may-call: Demux.Cancel is an owner-side API; in-library call sites are reported individually")
 	rulePipeline(c, rule, func(q queueSpec) bool { return strings.HasPrefix(q.name, "demux.") }, false)
 	w := p.fnByKey(p.roleFn("demux.connWriter"))
 	for _, wr := range p.transportOps(w, "Write", false) {
